@@ -649,3 +649,13 @@ def only_modules_are_cached_as_attachments(ctx):
             ctx.undecided(f'{f.qualname}:only a module object is cached', st, f'`{src(v)}`: the stored value is not a tested local', f)
     if not n:
         raise AnchorMissing('store into attachedModules not found in Attached.__get__')
+
+
+@rule('C15.R11', min_instances=1)
+def a_falsy_start_value_is_a_given_value(ctx):
+    """shared with C04.R8 / C06.R7: whether a start value was GIVEN (configured or as Parameter argument) decides whether it enters
+    writeDict and is written before the first poll; it is asked by identity (`pobj.value is None`).  A truth test takes the
+    configured values 0, 0.0, False, '' and empty arrays as not given: they are never written, the parameter silently starts with
+    its class default"""
+    from sa.rules import common
+    common.truthiness_on_value_slots(ctx, {'frappy.modulebase', 'frappy.modules', 'frappy.params'})
